@@ -1425,10 +1425,12 @@ Proof.
   unfold holders. rewrite Hc, holders_of_snoc. apply hold_step_false.
 Qed.
 
-(* NOTE ([_machine] lemmas): facts about the trusted, queue-less mutex machine of Model.v. Go's sync.RWMutex
-   also refuses new readers while a writer WAITS, and sync.Mutex.TryLock may fail on a free mutex with
-   queued waiters; the property ("free and uncontended") therefore needs the hypothesis [uncontended],
-   which SyncMap/Uncontended.v adds. Only those versions are property theorems. *)
+(* NOTE ([_machine] lemmas): facts about the trusted mutex machine of Model.v (one atomic step per mutex
+   operation, no queue of waiters). Go's sync.RWMutex also refuses new readers while a writer WAITS,
+   sync.Mutex.TryLock may fail on a free mutex with queued waiters, and RWMutex.TryLock/Unlock are not atomic;
+   the property ("free and uncontended") therefore needs the hypothesis [quiet] (nobody else at a
+   mutex-operation step of the key), which SyncMap/Uncontended.v adds. Only those versions are property
+   theorems. *)
 (* TryLockKey(k) succeeds, and then holds k, when nobody holds a key with k's mutex *)
 Theorem trylock_succeeds_when_free_machine progs sched t ch c' f i :
   io_progs progs -> disc_from (init_config 1 progs) sched ->
